@@ -42,16 +42,17 @@ type rig struct {
 }
 
 // A run that is still going but has not reached a polling point while the process burnt stallCPU seconds of
-// CPU has stopped polling — the wedge that C18 forbids. CPU time (getrusage), not wall time: on a loaded
+// CPU (120: a 15 s threshold fired once on a heavily loaded machine, where the run's goroutine was starved while the
+// rest of the process burnt CPU; the run itself was fine) has stopped polling — the wedge that C18 forbids. CPU time (getrusage), not wall time: on a loaded
 // machine a slow but polling run must never be mistaken for it.
-const stallCPU = 15.0
+const stallCPU = 120.0
 
-const wedgeMsg = "the run went on for 15 s of CPU time without reaching a single interrupt polling point (an interrupt can not be delivered: unbounded progress between polls)"
+const wedgeMsg = "the run went on for 120 s of CPU time (and at least 60 s of wall clock) without reaching a single interrupt polling point (an interrupt can not be delivered: unbounded progress between polls)"
 
 func (r *rig) watched(fn func() harness.RunResult) (harness.RunResult, bool) {
 	done := make(chan harness.RunResult, 1)
 	go func() { done <- fn() }()
-	last, cpuAtLast := atomic.LoadInt64(&r.progress), cpuSeconds()
+	last, cpuAtLast, wallAtLast := atomic.LoadInt64(&r.progress), cpuSeconds(), time.Now()
 	tick := time.NewTicker(250 * time.Millisecond)
 	defer tick.Stop()
 	for {
@@ -60,8 +61,8 @@ func (r *rig) watched(fn func() harness.RunResult) (harness.RunResult, bool) {
 			return res, false
 		case <-tick.C:
 			if now := atomic.LoadInt64(&r.progress); now != last {
-				last, cpuAtLast = now, cpuSeconds()
-			} else if cpuSeconds()-cpuAtLast >= stallCPU {
+				last, cpuAtLast, wallAtLast = now, cpuSeconds(), time.Now()
+			} else if cpuSeconds()-cpuAtLast >= stallCPU && time.Since(wallAtLast) >= 60*time.Second {
 				return harness.RunResult{}, true
 			}
 		}
